@@ -2,13 +2,19 @@
 
    Follows, line by line and including their quirks:
      heartbeat_timer_task (one loop iteration = tick), send_test_req, the TESTREQUEST gate of
-     send_msg, disconnect, _process_testrequest, _process_heartbeat and the
-     _message_last_time update of _finalize_message.
+     send_msg, disconnect, _process_testrequest, _process_heartbeat, and - for the part of
+     _process_message that decides whether the heartbeat protocol sees a message at all -
+     _check_seqnum_gaps (ResendRequest / RESENDREQ_AWAITING), the dispatch that follows it and
+     _finalize_message (_message_last_time, return to ACTIVE when the gap is closed).
 
    Time is Z milliseconds since the Unix epoch (time.time() * 1000); int(time.time()) is
    now / 1000 (floor).  The heartbeat interval hb is in seconds, as in the constructor.
    The thresholds, the sleep period and the ConnectionState numbers come from the regenerated
-   AFGen.GenTimer. *)
+   AFGen.GenTimer.
+
+   Sequence numbers are relative: an inbound message carries d = MsgSeqNum - next_num_in
+   (0 = in sequence, > 0 = behind a gap); the state carries s_gap = _max_seq_num_resend -
+   next_num_in while a resend is awaited (0 otherwise). *)
 From Coq Require Import ZArith NArith List Bool.
 From AF Require Import Base.Sx Py.Str.
 From AFGen Require Import GenTimer.
@@ -21,32 +27,34 @@ Record st := mkSt {
   s_hb : Z;               (* _heartbeat_period, seconds *)
   s_mlt : Z;              (* _message_last_time in ms; 0 = the falsy 0.0 *)
   s_id : option Z;        (* _test_req_id *)
-  s_conn : bool           (* _socket_writer and _socket_reader are set *)
+  s_conn : bool;          (* _socket_writer and _socket_reader are set *)
+  s_gap : Z               (* _max_seq_num_resend - next_num_in while RESENDREQ_AWAITING, else 0 *)
 }.
 
-Inductive kind := KHeartbeat | KTestRequest | KLogout.
+Inductive kind := KHeartbeat | KTestRequest | KLogout | KResendRequest.
 
 Inductive out :=
 | OWire (k : kind) (rid : option str)   (* frame handed to the transport; rid = its tag 112 *)
 | ODisconnect                           (* socket closed, state set, on_disconnect called *)
 | OSpin                                 (* the timer loop raises before its sleep: it spins *)
 | ORaise                                (* exception raised to the calling application code *)
-| OUnmodelled.                          (* combination outside this model (non-ACTIVE traffic) *)
+| OUnmodelled.                          (* combination outside this model *)
 
-(* valid, in-sequence inbound messages, by what the watchdog distinguishes *)
+(* valid inbound messages, by what the watchdog distinguishes *)
 Inductive msg :=
 | MHeartbeat (rid : option str)
 | MTestRequest (rid : option str)
-| MApp.
+| MApp
+| MGapFill (nw : Z).              (* SequenceReset, NewSeqNo = next_num_in + nw *)
 
 Inductive ev :=
 | Tick (t : Z)                    (* one iteration of heartbeat_timer_task with time.time() = t *)
-| Recv (t : Z) (m : msg)          (* _process_message of a valid in-sequence message at t *)
+| Recv (t : Z) (d : Z) (m : msg)  (* _process_message at t of a valid message numbered next_num_in + d *)
 | AppProbe (t : Z)                (* application calls send_test_req() at t *)
 | AppRaw (t : Z) (rid : str).     (* application calls send_msg(TestRequest(112 = rid)) at t *)
 
 Definition ev_time (e : ev) : Z :=
-  match e with Tick t => t | Recv t _ => t | AppProbe t => t | AppRaw t _ => t end.
+  match e with Tick t => t | Recv t _ _ => t | AppProbe t => t | AppRaw t _ => t end.
 
 Definition thr (c : Z * Z) (hb : Z) : Z := fst c * hb * 1000 + snd c.
 
@@ -54,13 +62,18 @@ Definition thr (c : Z * Z) (hb : Z) : Z := fst c * hb * 1000 + snd c.
 Definition truthy (i : option Z) : bool :=
   match i with Some z => negb (z =? 0) | None => false end.
 
-Definition set_mlt (s : st) (m : Z) : st := mkSt (s_state s) (s_hb s) m (s_id s) (s_conn s).
-Definition set_id (s : st) (i : option Z) : st := mkSt (s_state s) (s_hb s) (s_mlt s) i (s_conn s).
+Definition set_mlt (s : st) (m : Z) : st := mkSt (s_state s) (s_hb s) m (s_id s) (s_conn s) (s_gap s).
+Definition set_id (s : st) (i : option Z) : st := mkSt (s_state s) (s_hb s) (s_mlt s) i (s_conn s) (s_gap s).
+Definition set_state (s : st) (x g : Z) : st := mkSt x (s_hb s) (s_mlt s) (s_id s) (s_conn s) g.
+
+(* the session is logged on and the reader dispatches heartbeat-protocol messages *)
+Definition session_up (s : st) : bool :=
+  (s_state s =? ST_ACTIVE) || (s_state s =? ST_RESENDREQ_AWAITING).
 
 (* disconnect(DISCONNECTED_BROKEN_CONN, logout_message): only when the state is above BROKEN_CONN *)
 Definition disconnect (s : st) (logout : bool) : st * list out :=
   if ST_DISCONNECTED_BROKEN_CONN <? s_state s then
-    (mkSt ST_DISCONNECTED_BROKEN_CONN (s_hb s) 0 None false,
+    (mkSt ST_DISCONNECTED_BROKEN_CONN (s_hb s) 0 None false 0,
      (if logout then [OWire KLogout None] else []) ++ [ODisconnect])
   else (s, []).
 
@@ -102,25 +115,53 @@ Definition tick (now : Z) (s : st) : st * list out :=
 (* int(hbt_msg.get(112, "0")) with `except: 0` *)
 Definition parse_id (v : str) : Z := match py_int v with Some z => z | None => 0 end.
 
-(* a valid in-sequence message arrives at `now` (socket_read_task -> _process_message) *)
-Definition recv (now : Z) (m : msg) (s : st) : st * list out :=
+(* _check_seqnum_gaps: a number above the expected one asks for a resend once and is not valid *)
+Definition check_gap (d : Z) (s : st) : st * list out * bool :=
+  if 0 <? d then
+    if s_state s =? ST_RESENDREQ_AWAITING then (s, [], false)
+    else (set_state s ST_RESENDREQ_AWAITING d, [OWire KResendRequest None], false)
+  else (s, [], true).
+
+(* the TESTREQUEST / HEARTBEAT / application branches of the dispatch: they do not look at validity *)
+Definition dispatch (m : msg) (s : st) : st * list out :=
+  match m with
+  | MTestRequest rid =>
+      (s, [OWire KHeartbeat (Some (match rid with Some v => v | None => [48%N] end))])
+  | MHeartbeat rid =>
+      match s_id s, rid with
+      | Some n, Some v =>
+          if n =? parse_id v then (set_id s None, [])
+          else disconnect s true
+      | _, _ => (s, [])
+      end
+  | MApp => (s, [])
+  | MGapFill _ => (s, [])
+  end.
+
+(* _finalize_message of a message that advances next_num_in by adv (1, or nw for a gap fill):
+   the resend wait ends when the finalized number reaches _max_seq_num_resend *)
+Definition finalize (now adv : Z) (s : st) : st :=
+  let s1 :=
+    if s_state s =? ST_RESENDREQ_AWAITING then
+      if s_gap s <=? adv - 1 then set_state s ST_ACTIVE 0 else set_state s (s_state s) (s_gap s - adv)
+    else s in
+  set_mlt s1 now.
+
+(* a valid message numbered next_num_in + d arrives at `now` (socket_read_task -> _process_message) *)
+Definition recv (now d : Z) (m : msg) (s : st) : st * list out :=
   if negb (s_conn s) || (s_state s <=? ST_DISCONNECTED_BROKEN_CONN) then (s, [])   (* nothing is read *)
-  else if negb (s_state s =? ST_ACTIVE) then (s, [OUnmodelled])
+  else if negb (session_up s) || (d <? 0) then (s, [OUnmodelled])
   else
-    let '(s1, o) :=
-      match m with
-      | MTestRequest rid =>
-          (s, [OWire KHeartbeat (Some (match rid with Some v => v | None => [48%N] end))])
-      | MHeartbeat rid =>
-          match s_id s, rid with
-          | Some n, Some v =>
-              if n =? parse_id v then (set_id s None, [])
-              else disconnect s true
-          | _, _ => (s, [])
-          end
-      | MApp => (s, [])
-      end in
-    (set_mlt s1 now, o).          (* finally: _finalize_message (also after the disconnect) *)
+    match m with
+    | MGapFill nw =>
+        (* _process_seqreset moves next_num_in to NewSeqNo first; only the in-sequence form is modelled *)
+        if negb (d =? 0) || (nw <? 1) then (s, [OUnmodelled])
+        else (finalize now nw s, [])
+    | _ =>
+        let '(s0, o0, valid) := check_gap d s in
+        let '(s1, o1) := dispatch m s0 in
+        ((if valid then finalize now 1 s1 else s1), o0 ++ o1)   (* finally: if is_valid_msg_num *)
+    end.
 
 (* send_test_req() called by application code *)
 Definition app_probe (now : Z) (s : st) : st * list out :=
@@ -130,14 +171,14 @@ Definition app_probe (now : Z) (s : st) : st * list out :=
       let n := now / 1000 in
       let s' := set_id s (Some n) in               (* the id is set before send_msg may raise *)
       if negb (s_conn s) || (s_state s <? ST_NETWORK_CONN_ESTABLISHED) then (s', [ORaise])
-      else if s_state s =? ST_ACTIVE then (s', [testreq_frame n])
+      else if session_up s then (s', [testreq_frame n])
       else (s', [OUnmodelled])
   end.
 
 (* send_msg(FIXMessage(TESTREQUEST, {112: rid})) called by application code *)
 Definition app_raw (now : Z) (rid : str) (s : st) : st * list out :=
   if negb (s_conn s) || (s_state s <? ST_NETWORK_CONN_ESTABLISHED) then (s, [ORaise])
-  else if s_state s =? ST_ACTIVE then
+  else if session_up s then
     match s_id s with
     | None => (s, [ORaise])                        (* the TESTREQUEST gate *)
     | Some _ => (s, [OWire KTestRequest (Some rid)])
@@ -147,7 +188,7 @@ Definition app_raw (now : Z) (rid : str) (s : st) : st * list out :=
 Definition step (s : st) (e : ev) : st * list out :=
   match e with
   | Tick t => tick t s
-  | Recv t m => recv t m s
+  | Recv t d m => recv t d m s
   | AppProbe t => app_probe t s
   | AppRaw t rid => app_raw t rid s
   end.
